@@ -24,13 +24,62 @@ MAX_LOCAL_EDITS = 0
 MAX_LOCAL_FRACTION = 0.25
 
 
+def _vkind(v):
+  """Coarse kind of an expression: the outermost operator, for calls the last component of the callee's name."""
+  if v is None:
+    return '-'
+  if isinstance(v, ast.Call):
+    f = v.func
+    return 'call:' + (f.attr if isinstance(f, ast.Attribute) else (f.id if isinstance(f, ast.Name) else '?'))
+  # operators are deliberately not part of the kind: `<` against `<=`, `+` against `-` are changes *inside* an expression,
+  # which the normal-form rules read and judge; the kind only separates a call from arithmetic from a comparison from a name
+  if isinstance(v, ast.BinOp):
+    return 'bin'
+  if isinstance(v, ast.BoolOp):
+    return 'bool'
+  if isinstance(v, ast.UnaryOp):
+    return _vkind(v.operand) if isinstance(v.op, (ast.USub, ast.UAdd)) else 'un:' + _vkind(v.operand)
+  if isinstance(v, ast.Compare):
+    return 'cmp'
+  if isinstance(v, ast.Constant):
+    return 'const'
+  return type(v).__name__
+
+
+def _tkind(t):
+  return {'Name': 'n', 'Attribute': 'a', 'Subscript': 's', 'Tuple': 't', 'List': 't', 'Starred': '*'}.get(type(t).__name__, '?')
+
+
+FINE = os.environ.get('VERIF_SIG', 'fine') != 'coarse'
+
+
 def _kind(st):
+  """Statement kind; in the fine signature also the kind of the targets and of the value / test (never a local's name, so
+  renaming locals does not change it; comparison operators are those of the loader's canonical orientation)."""
   k = type(st).__name__
   if isinstance(st, ast.Expr):
     v = st.value
     if isinstance(v, ast.Constant):
       return None       # docstrings / bare constants do not count
-    return 'Expr'
+    return 'Expr' + (':' + _vkind(v) if FINE else '')
+  if not FINE:
+    return k
+  if isinstance(st, ast.Assign):
+    return 'Assign:%s=%s' % (''.join(_tkind(t) for t in st.targets), _vkind(st.value))
+  if isinstance(st, ast.AugAssign):
+    return 'AugAssign:%s=%s' % (_tkind(st.target), _vkind(st.value))
+  if isinstance(st, ast.AnnAssign):
+    return 'Assign:%s=%s' % (_tkind(st.target), _vkind(st.value))
+  if isinstance(st, (ast.If, ast.While)):
+    return '%s:%s' % (k, _vkind(st.test))
+  if isinstance(st, ast.For):
+    return 'For:%s in %s' % (_tkind(st.target), _vkind(st.iter))
+  if isinstance(st, ast.Return):
+    return 'Return:' + _vkind(st.value)
+  if isinstance(st, ast.Raise):
+    return 'Raise:' + _vkind(st.exc)
+  if isinstance(st, ast.Delete):
+    return 'Delete:' + ''.join(_tkind(t) for t in st.targets)
   return k
 
 
